@@ -48,22 +48,92 @@ theorem c05_progress_after_restart (cfg : Cfg) (hc : cfg.shortDeliveryOk = true)
     (st : Study) (w : String) (n : Nat) (alg : AlgOutcome)
     (hfree : (opsOf st w).find? (fun o => !o.done) = none) :
     ∃ o, (suggestBody cfg st w n alg).1.opOf = some o ∧ o.done = true ∧ o.client = w := by
-  unfold suggestBody
-  simp only [hfree]
-  split
-  · exact ⟨_, rfl, rfl, rfl⟩
-  · split
-    · exact ⟨_, rfl, rfl, rfl⟩
-    · unfold pythiaStage
-      split
-      · exact ⟨_, rfl, rfl, rfl⟩
-      · simp only [hc2, if_true]; exact ⟨_, rfl, rfl, rfl⟩
-      · simp only
-        split
-        · exact ⟨_, rfl, rfl, rfl⟩
-        · unfold createStage
-          simp only [hc, Bool.not_true, Bool.and_false]
-          exact ⟨_, rfl, rfl, rfl⟩
+  rw [suggestBody_of_free _ _ _ _ _ hfree]
+  obtain ⟨o, h1, h2, h3, _⟩ := suggestRest_answer cfg hc hc2 _ _ w n alg
+  exact ⟨o, h1, h2, h3⟩
+
+/-- after a restart, repaired service (an abandoned operation is RESUMED): EVERY worker — also the one whose
+    SuggestTrials call the crash interrupted — is answered with a finished operation of its own, in ANY
+    study state (in particular every crash state), whatever the algorithm does.  No hypothesis on `st`. -/
+theorem c05_progress_after_restart_every_worker (cfg : Cfg) (hc : cfg.shortDeliveryOk = true)
+    (hc2 : cfg.suggestCatchesAll = true) (hr : cfg.resumesAbandonedOp = true)
+    (st : Study) (w : String) (n : Nat) (alg : AlgOutcome) :
+    ∃ o, (suggestBody cfg st w n alg).1.opOf = some o ∧ o.done = true ∧ o.client = w := by
+  obtain ⟨o, h1, h2, h3, _⟩ := suggestBody_answer_done cfg hc hc2 hr st w n alg
+  exact ⟨o, h1, h2, h3⟩
+
+/-- … the resumed operation keeps its number (no new record is created for it); a worker without an
+    abandoned operation gets the next number -/
+theorem c05_resumed_keeps_number (cfg : Cfg) (hc : cfg.shortDeliveryOk = true)
+    (hc2 : cfg.suggestCatchesAll = true) (hr : cfg.resumesAbandonedOp = true)
+    (st : Study) (w : String) (n : Nat) (alg : AlgOutcome) :
+    ∃ o, (suggestBody cfg st w n alg).1.opOf = some o ∧
+      o.num = (match (opsOf st w).find? (fun o => !o.done) with
+               | some o0 => o0.num
+               | none => (opsOf st w).length + 1) := by
+  obtain ⟨o, h1, _, _, h4⟩ := suggestBody_answer_done cfg hc hc2 hr st w n alg
+  exact ⟨o, h1, h4⟩
+
+/-- … and the call leaves NO unfinished operation of that worker behind, provided the worker had at most
+    one before (true of every crash state: `c05_crash_leaves_at_most_one_unfinished`).  The hypothesis is
+    needed: `update_suggestion_operation` finishes the one record it resumed, not others. -/
+theorem c05_no_unfinished_after_restart (cfg : Cfg) (hc : cfg.shortDeliveryOk = true)
+    (hc2 : cfg.suggestCatchesAll = true) (hr : cfg.resumesAbandonedOp = true)
+    (st : Study) (w : String) (n : Nat) (alg : AlgOutcome)
+    (hone : ((opsOf st w).filter (fun o => !o.done)).length ≤ 1) :
+    ∀ o ∈ opsOf (suggestBody cfg st w n alg).2 w, o.done = true := by
+  intro o ho
+  have hm := List.mem_filter.mp ho
+  exact suggestBody_doneFor cfg hc hc2 hr st w n alg hone o hm.1 (by simpa using hm.2)
+
+/-- a crash at ANY point inside a SuggestTrials call of worker `w` (any variant of the service) keeps
+    "at most one unfinished operation" for EVERY worker `c` (`c = w` or not): a fresh call creates one
+    record only when `w` has none, a resumed call creates none, finishing a record never adds one.
+    So the hypothesis of `c05_no_unfinished_after_restart` is an invariant of calls and crashes. -/
+theorem c05_crash_leaves_at_most_one_unfinished (cfg : Cfg) (st : Study) (w : String) (n : Nat) (alg : AlgOutcome)
+    (c : String) (hone : ((opsOf st c).filter (fun o => !o.done)).length ≤ 1) :
+    ∀ s ∈ suggestCrashStates cfg st w n alg, ((opsOf s c).filter (fun o => !o.done)).length ≤ 1 := by
+  intro s hs
+  simp only [suggestCrashStates, List.mem_map, List.mem_range] at hs
+  obtain ⟨k, _, rfl⟩ := hs
+  exact crash_at_most_one_pending cfg st w n alg c hone k
+
+/-- in particular from a state without unfinished operations (every state reached by calls alone with the
+    repaired service: C06) -/
+theorem c05_crash_from_clean_at_most_one_unfinished (cfg : Cfg) (st : Study) (w : String) (n : Nat) (alg : AlgOutcome) :
+    ∀ s ∈ suggestCrashStates cfg st w n alg, PendingFree st →
+      ((opsOf s w).filter (fun o => !o.done)).length ≤ 1 := by
+  intro s hs hpf
+  refine c05_crash_leaves_at_most_one_unfinished cfg st w n alg w ?_ s hs
+  have : (opsOf st w).filter (fun o => !o.done) = [] := by
+    rw [List.filter_eq_nil_iff]
+    intro o ho
+    simp [hpf o (List.mem_filter.mp ho).1]
+  simp [this]
+
+/-- crash, restart, ask again: from a clean state, after a crash at any point inside a SuggestTrials call of
+    `w`, the next SuggestTrials of ANY worker `w'` is answered with a finished operation of `w'` and leaves
+    no unfinished operation of `w'` -/
+theorem c05_recovery_after_crash (cfg : Cfg) (hc : cfg.shortDeliveryOk = true)
+    (hc2 : cfg.suggestCatchesAll = true) (hr : cfg.resumesAbandonedOp = true)
+    (st : Study) (hpf : PendingFree st) (w : String) (n : Nat) (alg : AlgOutcome)
+    (w' : String) (n' : Nat) (alg' : AlgOutcome) :
+    ∀ s ∈ suggestCrashStates cfg st w n alg,
+      (∃ o, (suggestBody cfg s w' n' alg').1.opOf = some o ∧ o.done = true ∧ o.client = w') ∧
+      ∀ o ∈ opsOf (suggestBody cfg s w' n' alg').2 w', o.done = true := by
+  intro s hs
+  refine ⟨c05_progress_after_restart_every_worker cfg hc hc2 hr s w' n' alg', ?_⟩
+  apply c05_no_unfinished_after_restart cfg hc hc2 hr
+  refine c05_crash_leaves_at_most_one_unfinished cfg st w n alg w' ?_ s hs
+  have : (opsOf st w').filter (fun o => !o.done) = [] := by
+    rw [List.filter_eq_nil_iff]
+    intro o ho
+    simp [hpf o (List.mem_filter.mp ho).1]
+  simp [this]
+
+/-- the hypotheses are those of the repaired service -/
+example : Cfg.fixed.shortDeliveryOk = true ∧ Cfg.fixed.suggestCatchesAll = true ∧
+    Cfg.fixed.resumesAbandonedOp = true := by decide
 
 /-- … and completing a trial that is ACTIVE with a measurement succeeds in every state -/
 theorem c05_complete_after_restart (st : Study) (id : Nat) (t : Trial) (m : Meas) (hm : m.hasMetrics = true)
@@ -95,20 +165,37 @@ theorem c05_restart_invariant (cfg : Cfg) (h : List Req) (o s w : String) (n : N
       have := (onStudy_ok hi o s false f hkeep (fun x hn => suggest_crash_ok cfg x w n alg hn k)).1
       simpa [onStudy, hfind, f] using this
 
-/-! ### known limitation of the code (kernel-checked witness) -/
+/-! ### the code at the pinned commit: the interrupted worker is wedged (kernel-checked witnesses) -/
 
 def isPending : Resp → Bool
   | .op _ o _ => !o.done
   | _ => false
 
-/-- a crash right after `create_suggestion_operation` committed: the restarted server finds the
-    worker's operation unfinished, and every later SuggestTrials of THAT worker returns it unchanged,
-    whatever the algorithm would deliver (other workers are served: `c05_progress_after_restart`). -/
+/-- the repaired service except that an abandoned operation is returned unchanged (pinned commit) -/
+def noResume : Cfg := { Cfg.fixed with resumesAbandonedOp := false }
+
+/-- WITHOUT resuming: a crash right after `create_suggestion_operation` committed: the restarted server
+    finds the worker's operation unfinished, and every later SuggestTrials of THAT worker returns it
+    unchanged, whatever the algorithm would deliver (other workers are served: `c05_progress_after_restart`). -/
 theorem c05_same_worker_wedge_counterexample :
     let st0 : Study := { owner := "o", sid := "s", state := .active, spec := 0, md := [], trials := [], sugOps := [], esOps := [] }
+    let crashed := applyWrites noResume st0 ((suggestWrites noResume st0 "w" 1 (.suggestions [⟨1, []⟩] [])).take 1)
+    isPending (suggestBody noResume crashed "w" 1 (.suggestions [⟨2, []⟩] [])).1 = true ∧
+    (suggestBody noResume crashed "w" 1 (.suggestions [⟨2, []⟩] [])).2 = crashed := by
+  decide
+
+/-- the same crashed state under the repaired service: the abandoned operation number 1 is resumed, finished,
+    and hands out a trial made from what the algorithm delivers now; no second record is created -/
+theorem c05_same_worker_resumed :
+    let st0 : Study := { owner := "o", sid := "s", state := .active, spec := 0, md := [], trials := [], sugOps := [], esOps := [] }
     let crashed := applyWrites Cfg.fixed st0 ((suggestWrites Cfg.fixed st0 "w" 1 (.suggestions [⟨1, []⟩] [])).take 1)
-    isPending (suggestBody Cfg.fixed crashed "w" 1 (.suggestions [⟨2, []⟩] [])).1 = true ∧
-    (suggestBody Cfg.fixed crashed "w" 1 (.suggestions [⟨2, []⟩] [])).2 = crashed := by
+    let r := suggestBody Cfg.fixed crashed "w" 1 (.suggestions [⟨2, []⟩] [])
+    crashed.sugOps = [{ client := "w", num := 1, done := false, result := .none }] ∧
+    isPending r.1 = false ∧
+    r.1.opOf = some { client := "w", num := 1, done := true, result := .trials [1] } ∧
+    r.1.handed.map (fun t => (t.id, t.state, t.client, t.params)) = [(1, .active, "w", 2)] ∧
+    r.2.sugOps = [{ client := "w", num := 1, done := true, result := .trials [1] }] ∧
+    r.2.trials.map (fun t => (t.id, t.state, t.client, t.params)) = [(1, .active, "w", 2)] := by
   decide
 
 end VizierModel.C05
